@@ -1142,7 +1142,17 @@ func (g *Gen) famDidAdv() {
 	upd := func(p *ProofSpec, doc *DocSpec) {
 		g.tx(MsgSpec{T: "did.Update", F: map[string]string{"did": did, "from": from}, Doc: doc, Proof: p})
 	}
-	switch r.Intn(30) {
+	switch r.Intn(32) {
+	case 30, 31: // a very large document (nothing limits the size of a service endpoint): sizes around 4 KiB, 16 KiB, 32 KiB, 64 KiB
+		doc := g.didDoc(did, []int{k}, 0)
+		base := []int{4096, 16384, 32768, 65536, 65536, 65536}[r.Intn(6)]
+		size := base - 120 + r.Intn(130)
+		doc.Services = []SvcSpec{{Id: "big", Type: "Blob", Endpoint: "https://e.example/" + strings.Repeat("p", size)}}
+		id := g.emit(&TxSpec{Gas: 30_000_000, Msgs: []MsgSpec{{T: "did.Update", F: map[string]string{"did": did, "from": from}, Doc: doc, Proof: &ProofSpec{Key: k, MethodID: mid, Seq: "cur"}}}})
+		g.didTx = append(g.didTx, didRef{id, did})
+		// the same message again, and another update over the sequence the first one was made over
+		g.emit(&TxSpec{Gas: 30_000_000, Msgs: []MsgSpec{{T: "reuse", OfTx: id, OfMsg: 0}}, Note: "replay of accepted DID message"})
+		upd(&ProofSpec{Key: k, MethodID: mid, Seq: "cur-1"}, g.didDoc(did, []int{k}, 0))
 	case 28, 29: // a DID that names another DID as its controller: the controller's keys are not keys of this DID
 		ci := (k + 6) % NumDidKeys
 		ctl := g.env.Dids[ci]
@@ -1440,6 +1450,9 @@ func (g *Gen) famReplay() {
 				}
 			default:
 				target = caseVariant(ref.Did, r)
+			}
+			if d := orig.Msgs[0].Doc; d != nil && len(d.Controller) > 0 && r.Chance(0.6) {
+				target = d.Controller[r.Intn(len(d.Controller))] // a DID the observed document names as its controller
 			}
 			f := map[string]string{"did": target, "from": g.addr(r.Intn(NumAccounts))}
 			if r.Chance(0.2) {
